@@ -322,6 +322,73 @@
 //	bytes       `[]byte` is `List UInt8`, an element `b[i]` (i known in range) is `b.getD i (0 : UInt8)`;
 //	            `bytes.Compare(a, b)` is `if a < b then -1 else if b < a then 1 else 0` with `<` the
 //	            lexicographic order of byte lists (what bytes.Compare computes).
+//
+// Documents, collections, type assertions, threaded receivers, checked reads (`Document.Include`,
+// `Resources` and `WrapperCollection` GetType / Len / At / Add, `NewIdentifiers`, `Identifiers.IDs`,
+// `Meta.Has`, `Meta.GetInt`; the code of these rules is in wp_u.go). Reading conventions (trusted):
+//
+//	documents   The struct `Document` is the model's `Document` (Model/Marshal.lean), as `Type` is `Typ`:
+//	            the field `Data any` is `data : DocData` - the sum "a resource view | a collection view |
+//	            an identifier | identifiers | nil | anything else" -, `Included []Resource` is
+//	            `included : List ResView`; the other fields are outside the subset (a function that
+//	            mentions one is untranslated) and `Data` is never stored into.
+//	collections A value of the interface type `Collection` is a collection view, the pair (name of its
+//	            type, members) that `DocData.col` carries: `c.GetType().Name` is `c.1`, `c.Len()` is
+//	            the number of members, `c.At(i)` is member i (`c.2.getD i default`) and is accepted only
+//	            for the index variable of `for i := 0; i < c.Len(); i++ { … }` - a fold over
+//	            `List.range c.2.length` as the counting loops above; the body may use c as the receiver
+//	            of GetType, Len and At only, so the number of members does not change. Of the type of a
+//	            collection only the Name is modelled: `t := c.GetType()` binds t to the name and t may
+//	            be used in `t.Name` only. c must be a variable. `*Wrapper` is the resource view of the
+//	            wrapper (it implements Resource; a nil `*Wrapper` is outside the model), so `[]*Wrapper`
+//	            is `List ResView`.
+//	resources   (addition) `r.Get("id").(string)` without the second result is `r.id`, as the form
+//	            `id, _ := r.Get("id").(string)` is: the resource view carries the id as a string (every
+//	            implementation of the library returns one; for a foreign implementation that does not,
+//	            the one-result form panics: outside the model).
+//	assertions  `v, ok := E.(T)`, as a statement or as the init of an `if`: for E the field Data of a
+//	            Document and T = Resource / Collection, ok is whether `data` is the constructor `res` /
+//	            `col` and v its argument (`match … with | DocData.res v' => some v' | _ => none`, then
+//	            `.isSome` and `.getD default`) - a dynamic value is a resource or a collection or neither,
+//	            as in the model; for E of type Resource and T = `*Wrapper`, ok is `isWrapper' E`, a
+//	            parameter `isWrapper' : ResView → Bool` of the translated function (a resource view
+//	            does not carry its dynamic type), and v is the same view. The translator checks that v
+//	            is read only inside the body of an `if` whose condition is ok or a conjunction with ok,
+//	            and that neither variable is assigned again - so the zero value v has when ok is false
+//	            is never read. `_, ok := m[k]` on a `map[string]any` is `(GoMap.get? m k).isSome`;
+//	            `v, _ := m[k].(int)` is the int the entry holds, 0 when the key is absent or holds
+//	            something else (`any` is PageVal: header, stand-ins).
+//	threaded    A method WITHOUT result whose pointer receiver points to `Document`, to a generated
+//	receivers   structure or to a named slice type (`*Resources`), and whose body assigns through the
+//	            receiver (`d.Included = …`, `*r = …`), is translated with the receiver as a value that is
+//	            threaded through the body and returned - at `return` and at the end of the body -, as the
+//	            methods of `*Type` / `*Schema` are, but by the rules of the local structures (header:
+//	            structs), so that loops with early exit are available: inside a loop `return` yields
+//	            ret' = `some <receiver>`. The translator checks that the receiver variable is used only
+//	            as the root of a field selection or under `*`, and that the body has no function
+//	            literal: no second pointer to the receiver exists.
+//	loop        The variables of `for k, v := range xs` are rendered as the element the step function
+//	variables   binds (elem_, elem_.1, elem_.2), never by a `let`: one that is assigned nowhere may hide
+//	            a variable of an enclosing block that is used after the loop (`for _, res := range
+//	            d.Included` hides the parameter res).
+//	nil         A result of the interface type `Resource` for which some `return` of the function gives
+//	resources   the untyped nil is an `Option ResView`: `return nil` is `none`, `return e` is `some e`.
+//	checked     A read `xs[p]` of a slice at a PARAMETER p of a signed integer type is not shown to be
+//	reads       in range by the translator; it is rendered with its own test: the function (which must
+//	            have no error result) returns `Res τ` instead of τ, every `return e` is `Res.ok e`, and
+//	            the statement whose own expressions contain the read (not under the right operand of
+//	            `&&` / `||`) is guarded, `if 0 ≤ p ∧ p < xs.length then <statement and what follows>
+//	            else Res.panic`, the read being `xs.getD (Int.toNat p) zero` under the guard. Whether
+//	            the tests of the code keep the read in range is then a matter of proof (`Resources.At`
+//	            never panics, `WrapperCollection.At` does below zero). Such a function cannot be called
+//	            from another translated function.
+//	element     `xs := make([]T, len(X))` with X a parameter or the receiver, assigned nowhere in the
+//	stores      function (no element store, no address either), and xs a local that is assigned nowhere
+//	            else and used only as `xs[k]`, `len(xs)` and in `return`: xs keeps the length of X. In
+//	            `for k := range X { … }` (in a statement list every path of which returns) the store
+//	            `xs[k] = e` is then in range and is `xs.set k e`; the loop is a fold over
+//	            `List.range X.length` that carries xs (as the counting loops above: `X[k]` is
+//	            `X.getD k zero`). A store at any other index leaves the function untranslated.
 package main
 
 import (
@@ -401,6 +468,9 @@ func leanType(t types.Type, n ast.Node) string {
 		return s
 	}
 	if s, ok := wpsType(t, n); ok {
+		return s
+	}
+	if s, ok := wpuType(t, n); ok {
 		return s
 	}
 	switch u := t.(type) {
@@ -760,6 +830,9 @@ func structOf(t types.Type) string {
 
 // fieldOf is the model's name of a struct field ("" when the field is outside the subset).
 func fieldOf(structName, field string) string {
+	if f := wpuField(structName, field); f != "" {
+		return f
+	}
 	switch structName + "." + field {
 	case "Schema.Types", "Type.Name", "Type.Attrs", "Type.Rels", "Attr.Name", "Attr.Nullable":
 		return lowerFirst(field)
@@ -1224,6 +1297,9 @@ func (x *tr) effect(st ast.Stmt, ind string) (out string, ok bool) {
 	if out, ok := x.wpsEffect(st, ind); ok {
 		return out, true
 	}
+	if out, ok := x.wpuEffect(st, ind); ok {
+		return out, true
+	}
 	if as, isAs := st.(*ast.AssignStmt); isAs {
 		if out, ok := x.multiAssign(as, ind); ok {
 			return out, true
@@ -1386,6 +1462,9 @@ func (x *tr) expr(e ast.Expr) string {
 		return c
 	}
 	if s, ok := x.wpsExpr(e); ok {
+		return s
+	}
+	if s, ok := x.wpuExpr(e); ok {
 		return s
 	}
 	switch v := e.(type) {
@@ -2216,6 +2295,9 @@ func (x *tr) decl(s *ast.DeclStmt, ind string) string {
 
 // block translates statements every path of which ends in a return.
 func (x *tr) block(stmts []ast.Stmt, ind string) string {
+	if out, ok := x.wpuBlock(stmts, ind); ok {
+		return out
+	}
 	if len(stmts) == 0 {
 		if x.exit != nil {
 			return x.exitState("false", x.noRet()) // the end of the body of a loop in block mode
@@ -2435,7 +2517,7 @@ func (x *tr) rangeStmt(s *ast.RangeStmt, after []ast.Stmt, ind string, mustRetur
 	}
 	if nested || x.recvObj == nil {
 		for _, kv := range []ast.Expr{s.Key, s.Value} {
-			if id, isId := kv.(*ast.Ident); isId && kv != nil && id.Name != "_" {
+			if id, isId := kv.(*ast.Ident); isId && kv != nil && id.Name != "_" && !x.wpuLoopVar(id) {
 				x.noShadow(id)
 			}
 		}
@@ -2859,6 +2941,7 @@ func (x *tr) functionOnce(target string, d *ast.FuncDecl) (out string, err strin
 			}
 		}
 	}
+	wpOwner = ownerOf(target)
 	x.wptBegin(target, d)
 	params := []string{}
 	add := func(fl *ast.FieldList) {
@@ -2882,7 +2965,7 @@ func (x *tr) functionOnce(target string, d *ast.FuncDecl) (out string, err strin
 	}
 	add(d.Recv)
 	add(d.Type.Params)
-	if d.Type.Results == nil && x.recvObj == nil {
+	if d.Type.Results == nil && x.recvObj == nil && !x.wpuThreads(d) {
 		fail(d, "no result")
 	}
 	res := []string{}
@@ -2912,6 +2995,7 @@ func (x *tr) functionOnce(target string, d *ast.FuncDecl) (out string, err strin
 		}
 		x.hasResult = len(res) == 2
 	}
+	res = x.wpuResults(d, res)
 	body := x.block(d.Body.List, "  ")
 	if x.recvObj != nil {
 		x.mutating[leanName(target)] = x.hasResult
@@ -3890,6 +3974,9 @@ func shrinkOne(n ast.Node, xtext string, idx types.Object) bool {
 //	for i := 0; i < len(X); i++ { … }             (up)
 //	for j := i + 1; j < len(X); j++ { … }         (up, i an index variable of an enclosing loop over X)
 func (x *tr) forStmt(s *ast.ForStmt, after []ast.Stmt, ind string, mustReturn bool) string {
+	if out, ok := x.wpuFor(s, after, ind, mustReturn); ok {
+		return out
+	}
 	bad := func() { fail(s, "for statement outside the subset") }
 	init, ok := s.Init.(*ast.AssignStmt)
 	if !ok || init.Tok != token.DEFINE || len(init.Lhs) != 1 || len(init.Rhs) != 1 || s.Cond == nil || s.Post == nil {
